@@ -100,6 +100,11 @@ finally:
                    stdout=subprocess.DEVNULL, stderr=subprocess.DEVNULL)
     shutil.rmtree(scratch, ignore_errors=True)
     subprocess.run(["git", "-C", "/repo", "worktree", "prune"], stdout=subprocess.DEVNULL, stderr=subprocess.DEVNULL)
+prev = meta.get("confirmed", {})
+if "test_suite" not in res and "test_suite" in prev:
+    res["test_suite"] = prev["test_suite"]
+if prev.get("our_checks") and prev["our_checks"] != res.get("our_checks"):
+    meta.setdefault("earlier_check_results", []).append(prev["our_checks"])
 meta["confirmed"] = res
 meta["what_i_ran"] = ("tools/seedcheck.py: copy of /repo + patch.diff; demo.py on changed and unchanged tree; repository test suite on the "
                       "changed tree; ./check <prop> %s with VERIF_REPO=<copy>" % a.tier)
